@@ -6,7 +6,8 @@
 //!       single file `a.txt` = <line>, followed by the real `apply_plan` on the returned plan.
 //!       <opts> = `default` or a `;`-joined list of `o=<names>` (--only-styles), `x=<names>` (--exclude-styles),
 //!       `i=<names>` (--include-styles); names comma separated (model names, e.g. `screaming_snake`).
-//!       p0 = `--no-plural-variants`, p1 = the CLI default.  Further fields are ignored (they carry the pluralizer's
+//!       p0 = `--no-plural-variants`, p1 = plural variants on, both WITHOUT atomic configuration (core API); q0 / q1 = the same
+//!       with `Some(AtomicConfig)` as every CLI handler passes it (variant table from case_model.rs).  Further fields are ignored (they carry the pluralizer's
 //!       answers for the model).
 //!       ->  `r <ok|planerr|applyerr> <hex new line> <n> (<col> <hex content> <hex replace>)*n`   hunks sorted by column
 //!   rewritefile <hex file name> <hex content> <hex search> <hex replace> <opts> <p0|p1>
@@ -77,8 +78,12 @@ fn plan_for(
     search: &str,
     replace: &str,
     opts: &(Vec<Style>, Vec<Style>, Vec<Style>),
-    plurals: bool,
+    (plurals, cli_path): (bool, bool),
 ) -> anyhow::Result<renamify_core::scanner::Plan> {
+    // the CLI handlers always pass `Some(AtomicConfig::from_flags_and_config(flags, config.atomic))`; with no flag and no
+    // config entry nothing is atomic, but the variant table then comes from `case_model::generate_variant_map_internal`
+    // instead of the scanner's own loop
+    let atomic = renamify_core::atomic::AtomicConfig::from_flags_and_config(false, false, false, vec![]);
     let (res, _) = renamify_core::operations::plan::plan_operation(
         search,
         replace,
@@ -106,9 +111,20 @@ fn plan_for(
         plurals,
         false,
         Some(dir),
-        None,
+        if cli_path { Some(&atomic) } else { None },
     )?;
     res.plan.ok_or_else(|| anyhow::anyhow!("no plan in result"))
+}
+
+/// `p0|p1` = core API without atomic configuration (plural variants off|on), `q0|q1` = the CLI's call (atomic config present)
+fn mode(s: &str) -> Option<(bool, bool)> {
+    match s {
+        "p0" => Some((false, false)),
+        "p1" => Some((true, false)),
+        "q0" => Some((false, true)),
+        "q1" => Some((true, true)),
+        _ => None,
+    }
 }
 
 fn rewriteline(f: &[&str]) -> String {
@@ -117,11 +133,7 @@ fn rewriteline(f: &[&str]) -> String {
     else {
         return "bad-req".into();
     };
-    let plurals = match f[5] {
-        "p0" => false,
-        "p1" => true,
-        _ => return "bad-req".into(),
-    };
+    let Some(plurals) = mode(f[5]) else { return "bad-req".into() };
     let dir = fresh("l");
     let file = dir.join("a.txt");
     fs::write(&file, &line).unwrap();
@@ -166,11 +178,7 @@ fn rewritefile(f: &[&str]) -> String {
     else {
         return "bad-req".into();
     };
-    let plurals = match f[6] {
-        "p0" => false,
-        "p1" => true,
-        _ => return "bad-req".into(),
-    };
+    let Some(plurals) = mode(f[6]) else { return "bad-req".into() };
     if name.is_empty() || name.contains('/') || name.starts_with('.') {
         return "bad-req".into();
     }
@@ -276,7 +284,7 @@ pub fn dispatch(f: &[&str]) -> Option<String> {
             // for None the plan header shows the scanner's 5-style header default, reported as `none:<that list>`
             let Some(opts) = parse_opts(f[1]) else { return Some("bad-req".into()) };
             let dir = fresh("s");
-            let out = match plan_for(&dir, "foo_bar", "baz_qux", &opts, false) {
+            let out = match plan_for(&dir, "foo_bar", "baz_qux", &opts, (false, true)) {
                 Ok(p) => format!("y {}", show_styles(&p.styles)),
                 Err(_) => "y planerr".to_string(),
             };
